@@ -391,6 +391,9 @@ fn extreme_values() -> Vec<&'static str> {
         "0", "1", "2", "3", "4", "5", "7", "8", "16", "31", "32", "33", "63", "64", "65", "128", "255", "256", "1024", "1025", "65535", "65536", "2147483647", "2147483648", "4294967295", "4294967296", "9223372036854775807", "9223372036854775808",
         "18446744073709551615", "18446744073709551616", "99999999999999999999999999", "-1", "-2147483648", "1u", "4294967295u", "0x7fffffff", "0xffffffff", "0xffffffffffffffff", "1.5", "1e39", "1e400", "1e-400", "(1 << 31)", "(1 << 32)", "(1u << 32u)",
         "(0 - 1)", "(0u - 1u)", "(2147483647 + 1)", "(1 / 0)", "(1 % 0)", "(-2147483647 - 1) / -1", "(-2147483647 - 1) % -1", "(int)3e9", "(uint)-1.0", "(int)1e400", "4294967295 * 4294967295", "-(-2147483647 - 1)", "~0", "~0u", "!0", "true", "(1 ? 2 : 3)", "sizeof(int)",
+        // float spellings whose exponent digits are themselves boundary integers
+        "1.5e-9223372036854775807", "1.55e-9223372036854775807", "1.55e-9223372036854775808", "0.001e-18446744073709551615", "1.5e18446744073709551615", "1e99999999999999999999", "1.5e-99999999999999999999", "0.00000000000000000001e9223372036854775807",
+        "1e-9223372036854775808f", "1.5e+4294967296h",
     ]
 }
 
@@ -496,7 +499,7 @@ impl Spaces {
     }
 
     pub fn names(&self) -> Vec<&'static str> {
-        vec!["nesting", "soups", "macros", "defines", "extremes", "names", "bytes2", "bytes_cls", "tokens", "tokens_cls", "directives", "mutants", "mutants_repo"]
+        vec!["nesting", "soups", "macros", "defines", "extremes", "names", "degenerate", "bytes2", "bytes_cls", "tokens", "tokens_cls", "directives", "mutants", "mutants_repo"]
     }
 
     pub fn len(&self, space: &str) -> u64 {
@@ -524,6 +527,7 @@ impl Spaces {
             }
             "nesting" => nesting_families().iter().map(|f| f.2 as u64).sum::<u64>() * 4,
             "soups" => (soup_families().len() * soup_counts().len()) as u64,
+            "degenerate" => (DEGENERATE_DECLS.len() * DEGENERATE_USES.len()) as u64 * 8,
             "names" => (NAME_WORDS.len() * NAME_KINDS.len() * NAME_KINDS.len() * NAME_SUFFIX_SETS.len()) as u64 * 4,
             _ => 0,
         }
@@ -694,6 +698,19 @@ impl Spaces {
                 }
                 unreachable!()
             }
+            "degenerate" => {
+                // empty / zero-sized declarations in every position that takes a type or a declaration
+                let (nd, nu) = (DEGENERATE_DECLS.len() as u64, DEGENERATE_USES.len() as u64);
+                decode(idx, &[4, 2, nu, nd], &mut d);
+                let (dname, decl) = DEGENERATE_DECLS[d[3] as usize];
+                let (uname, usage) = DEGENERATE_USES[d[2] as usize];
+                let src = format!("{}\n{}\n", decl, usage);
+                let mut c = Case::simple(&format!("degenerate|{}|{}", dname, uname), src, 0);
+                c.cfg = ALL_CFGS[d[0] as usize];
+                c.validate = d[1] == 1;
+                c.mode = if usage.contains("Pipeline") { Mode::All } else { Mode::NoPipeline };
+                c
+            }
             "names" => {
                 // an entity named W (possibly renamed by an exporter because W is reserved in the target) next to
                 // entities that already carry the names the renaming would try next (W_0, W_1, W_0_0)
@@ -728,6 +745,49 @@ impl Spaces {
         }
     }
 }
+
+/// declarations of a type `T` with no data, no members or no size
+const DEGENERATE_DECLS: &[(&str, &str)] = &[
+    ("empty-struct", "struct T { };"),
+    ("struct-of-empty-struct", "struct E { };\nstruct T { E e; };"),
+    ("struct-of-empty-array", "struct E { };\nstruct T { E e[2]; };"),
+    ("struct-with-only-methods", "struct T { float m() { return 1.0; } void n() {} };"),
+    ("struct-with-empty-and-data", "struct E { };\nstruct T { E e; float a; E f; };"),
+    ("empty-derived-struct", "struct B { float a; };\nstruct T : B { };"),
+    ("derived-from-empty", "struct B { };\nstruct T : B { float a; };"),
+    ("empty-enum", "enum T { };"),
+    ("enum-one-value", "enum T { T0 };"),
+    ("typedef-of-empty-struct", "struct E { };\ntypedef E T;"),
+    ("struct-of-zero-length-array", "struct T { float a[0]; };"),
+    ("struct-of-bool", "struct T { bool b; };"),
+    ("struct-of-matrix", "struct T { float3x3 m; };"),
+    ("struct-of-object", "struct T { Texture2D t; };"),
+    ("struct-template-instance", "template<typename U> struct G { };\ntypedef G<float> T;"),
+];
+
+/// positions in which `T` is used
+const DEGENERATE_USES: &[(&str, &str)] = &[
+    ("unused", ""),
+    ("structured-buffer", "StructuredBuffer<T> g_b;\nvoid f() { g_b[0]; }"),
+    ("rw-structured-buffer-pipeline", "RWStructuredBuffer<T> g_b;\n[numthreads(1, 1, 1)] void CSMAIN() { T v = g_b[0]; g_b[1] = v; }\nPipeline P { ComputeShader = CSMAIN; }"),
+    ("raw-load", "ByteAddressBuffer g_b;\nvoid f() { T v = g_b.Load<T>(0); }"),
+    ("raw-store", "RWByteAddressBuffer g_b;\nvoid f(T v) { g_b.Store<T>(0, v); }"),
+    ("buffer-address-load", "BufferAddress g_b;\nvoid f() { T v = g_b.Load<T>(0); }"),
+    ("constant-buffer", "ConstantBuffer<T> g_c;\nvoid f() { T v = g_c; }"),
+    ("cbuffer-member", "cbuffer C { T m; float after; }\nfloat f() { return after; }"),
+    ("static-global", "static T g_s;\nvoid f() { T v = g_s; }"),
+    ("groupshared-array", "groupshared T g_s[4];\nvoid f() { T v = g_s[1]; }"),
+    ("local-and-copy", "void f() { T a; T b = a; a = b; }"),
+    ("local-array", "void f() { T a[3]; T b = a[1]; }"),
+    ("parameter-and-return", "T id(T v) { return v; }\nvoid f() { T a; a = id(a); }"),
+    ("out-parameter", "void o(out T v) { T w; v = w; }\nvoid f() { T a; o(a); }"),
+    ("cast-from-zero", "void f() { T a = (T)0; }"),
+    ("sizeof", "uint f() { return sizeof(T); }"),
+    ("array-size-from-sizeof", "void f() { float a[sizeof(T) + 1]; }"),
+    ("template-argument", "template<typename U> U pass(U v) { return v; }\nvoid f() { T a; a = pass<T>(a); }"),
+    ("interpolator-pipeline", "struct VO { float4 p : SV_Position; T t : USER; };\nVO VS() { VO o; o.p = float4(0, 0, 0, 1); return o; }\nfloat4 PS(VO i) : SV_Target0 { return i.p; }\nPipeline P { VertexShader = VS; PixelShader = PS; }"),
+    ("braced-init", "void f() { T a = { }; }"),
+];
 
 /// words that are reserved in at least one target but are accepted as rssl identifiers, plus an ordinary control
 const NAME_WORDS: &[&str] = &["and", "kernel", "vertex", "shared", "uniform", "device", "xq"];
@@ -852,6 +912,7 @@ pub fn run(ctx: &Ctx) -> i32 {
             "macros" => 500,
             "extremes" => 64,
             "names" => 40,
+            "degenerate" => 20,
             _ => 2_000,
         };
         let describe = |idx: u64| -> (String, String) {
